@@ -498,3 +498,10 @@ def collapse_only_while_nothing_else_stops_the_run(ctx):
     ctx.need(n_pass >= 1, '__get_collapses: no path hands collapses on')
     ctx.check(bad is None, '__get_collapses#only-collapse-stops', 'collapses are applied only when the whole stop message is made of Collapse* conditions (%d paths)' % n_pass,
               '__get_collapses: %s (path %s)' % (bad[1] if bad else '', bad[0].describe(5) if bad else ''), f, bad[0].exit_node if bad and bad[0].exit_node is not None else f.node)
+
+
+@rule('C11.l', min_instances=3)
+def collapsed_pairs_form_whole_groups(ctx):
+    """a CollapseAs collapse is applied through impose_as / tools.connected: pairs that share members are united into one group whatever their order, so after the collapse every parameter equals its partner (shared with C16.j)"""
+    from .c16 import connected_unites_groups
+    connected_unites_groups(ctx)
